@@ -16,7 +16,7 @@
    every property theorem directly for the weighted loop, which is what the tie needs. *)
 From Coq Require Import List NArith Bool.
 From Engine Require Import Model FactsBasic FactsInv FactsOps FactsClose FactsSound FactsIds FactsTerm FactsFam FactsIdem
-  Run FactsRun FactsEnum ExSemilattice ModelW RunW FactsW.
+  Run FactsRun FactsEnum ExSemilattice ExEnum ModelW RunW FactsW.
 Import ListNotations.
 Local Open Scope N_scope.
 
@@ -234,4 +234,26 @@ Proof.
   split; [exact Hwf|]. split; [apply no_defs_b_sound; vm_compute; reflexivity|].
   split; [apply runW_reachable; [exact Hwf | vm_compute; reflexivity]|].
   split; vm_compute; reflexivity.
+Qed.
+
+(* the enum program of ExEnum.v: h0 : A, p(h0), h1 := Ka(); the close creates Kb(h0) = element 2 *)
+Definition enW : wtable := [(rP, 2); (Ka, 2); (Kb, 4)].
+Definition en_sw : wstate := fst (defineW en enW Ka [] (insertW enW (FRel rP, [0]) (fst (new_elW tyA initW)))).
+Example Tie_ex_enum :
+  RulesOK en en_E en_ctor /\
+  (exists A, ReachW en enW A en_sw /\ HistOK en en_E en_ctor A) /\
+  match exec_close_untilW 20 en enW [] (fun _ => false) en_sw with
+  | Some (r, false) => existsb (fun x : fact => fact_eqb x (FTySet tyT, [2])) (old (st r))
+  | _ => false
+  end = true.
+Proof.
+  split; [exact en_RulesOK|]. split.
+  - eexists. split.
+    + unfold en_sw. apply RW_define with (f := Ka) (t := []); [|constructor].
+      apply RW_insert with (r := rP) (t := [0]); [|constructor; [vm_compute; reflexivity | constructor]].
+      apply RW_new with (ty := tyA). apply RW_init.
+    + split.
+      * intros ty e [H|[H|[H|[]]]]; try discriminate. inversion H; subst. reflexivity.
+      * intros f a [H|[H|[H|[]]]]; try discriminate. inversion H; subst. intros _. reflexivity.
+  - vm_compute. reflexivity.
 Qed.
